@@ -6,7 +6,7 @@ from worlds.reqpath import ReqPathRun, base_plan, RETRY_NEXT_HOST, RETHROW
 from worlds.full import ReqObs
 
 ID = 'C12'
-TIERS = {'quick': {'runs': 3000, 'budget_s': 55, 'wall_cap': 120, 'block': 50},
+TIERS = {'quick': {'runs': 9000, 'budget_s': 55, 'wall_cap': 120, 'block': 50},
          'thorough': {'runs': 300000, 'budget_s': 840, 'wall_cap': 120, 'block': 50}}
 SHRINK_LISTS = ['requests', 'faults']
 COVERAGE_RULE = ('one run = real Session/HostConnection pools over 1-3 fake nodes (protocol 3-5) with knobs max_in_flight 4-16 '
